@@ -256,6 +256,11 @@ func propFaults(t *rapid.T) {
 	}
 	wg.Wait()
 	bytesAfterRequests := px.Bytes.Load()
+	// B registers an accepted connection a moment after the handshake: a stop of B racing with that
+	// would leave the socket open inside this (shared) OS process, which a real node exit cannot do
+	if _, err := s.a.Network().Node(bname); err == nil {
+		kit.WaitUntil(2*time.Second, func() bool { _, err := b.Network().Node(s.a.Name()); return err == nil })
+	}
 	// the fault
 	reasonOK := []error{gen.ErrNoConnection}
 	switch fault {
